@@ -112,3 +112,12 @@ payload!(A, repr(C), 0);
 payload!(B, repr(C, align(16)), 17);
 // E: element type of the header-slice family (16 bytes, align 4)
 payload!(E, repr(C), 4);
+
+/// zero-sized header with a destructor: all of its instances share one identity
+pub const ZID: u32 = 0xFFFF_FF00;
+pub struct Zh;
+impl Drop for Zh {
+    fn drop(&mut self) {
+        LOG.push(Ev::Drop { id: ZID, addr: self as *const _ as usize });
+    }
+}
